@@ -106,6 +106,13 @@ Theorem C12_function_locals_forgotten : forall (s : tstate) t k,
   is_function_local t = true -> observe (finish_function s) t k = None.
 Proof. intros s t k H; unfold observe, finish_function; destruct t; try discriminate H; reflexivity. Qed.
 
+(* the same one level up (src/alpha.rs, Compiler::add_module): every stage object - typer, analyzer,
+   linter - is replaced by a fresh one for every module; only the generator is kept, and it is told
+   (the theorems above are about what it then forgets) *)
+Theorem C12_every_stage_is_fresh_per_module : forall st : stage,
+  replaced_by_default st = true \/ (st = S_generator /\ told_about_the_module st = true).
+Proof. intro st; destruct st; vm_compute; tauto. Qed.
+
 Example C12_tables_nontrivial :
   observe (insert empty_state T_constants 3 7) T_constants 3 = Some 7%N /\
   observe (add_module (insert empty_state T_constants 3 7)) T_constants 3 = None.
@@ -124,3 +131,4 @@ Print Assumptions C12_sorted_spec.
 Print Assumptions C12_add_module_forgets.
 Print Assumptions C12_add_module_clears_every_table.
 Print Assumptions C12_function_locals_forgotten.
+Print Assumptions C12_every_stage_is_fresh_per_module.
